@@ -28,7 +28,8 @@ SOURCES = [
 ]
 PAIR_REACTIONS = ["jpsi_k0_sigma_p", "lc_pkpi", "jpsi_k0_sigma_p_raw", "jpsi_gamma_pi0_pi0"]
 GAP_REACTIONS = ["chic0_omega_phi", "etac_LLbar"]  # several outer helicity combinations without transition
-REACTIONS = PAIR_REACTIONS + GAP_REACTIONS
+FOUR_BODY = ["jpsi_k0_sigma_p_pi0"]  # 2 topologies, 12 permuted ones without name collisions; DPD raises, axis-angle works
+REACTIONS = PAIR_REACTIONS + GAP_REACTIONS + FOUR_BODY
 HIST_DYNAMICS = ["create_non_dynamic", "create_relativistic_breit_wigner"]
 SIZES = {
     "quick": {"histories": 5, "ops": 55, "interleavings": 0, "hashseeds": ["prng"], "scan_seeds": 12, "cover_seeds": 3, "own_process": 2,
@@ -37,6 +38,25 @@ SIZES = {
                  "own_process": 10, "shrink_budget": 16, "perm_samples": 24},
 }
 ERR_CODE = {"ValueError": "1", "KeyError": "2"}
+
+# Every hash-ordered container the six attributes are built from (grep of the formulate() call tree),
+# with the fingerprint key under which the hash-seed scan records its iteration orders.
+ITERATION_SOURCES = [
+    {"attribute": "kinematic_variables", "container": "HelicityAdapter.__topologies (set of Topology)", "where": "kinematics/__init__.py create_expressions / permutate_registered_topologies",
+     "fingerprint": ["topologies:*", "permuted:*"], "neutralised_by": "sorting converter with tie-break by name (043d8fb); C06_order"},
+    {"attribute": "intensity", "container": "collect_spin_projections -> dict[Symbol, set[sp.Rational]]", "where": "helicity/naming.py; helicity/__init__.py PoolSum pools",
+     "fingerprint": ["half-integers", "half-integers-3/2", "integers"], "neutralised_by": "sorted(values) per pool (9c38e66)"},
+    {"attribute": "amplitudes", "container": "_unfold_poolsums(intensity).atoms(sp.Indexed) (set)", "where": "helicity/__init__.py __define_missing_amplitudes",
+     "fingerprint": ["indexed-atoms:*"], "neutralised_by": "sorted(atoms, key=str) (e6c0bd9); C06_missing_order"},
+    {"attribute": "kinematic_variables, parameter_defaults", "container": "angle_expr.free_symbols (set of Symbol)", "where": "helicity/__init__.py formulate, alignment loop",
+     "fingerprint": ["symbols"], "neutralised_by": "sorted(free_symbols, key=str)"},
+    {"attribute": "parameter_defaults", "container": "config.stable_final_state_ids (set of int)", "where": "helicity/__init__.py formulate",
+     "fingerprint": ["stable-ids-set"], "neutralised_by": "int hashing is not seed dependent (1 order observed); modelled as sorted"},
+    {"attribute": "kinematic_variables", "container": "wigner_rotation_ids / outgoing_edge_ids (sets / frozensets of int)", "where": "helicity/align/axisangle.py define_symbols; qrules Topology",
+     "fingerprint": ["state-id-frozenset"], "neutralised_by": "int hashing is not seed dependent; sorting converter"},
+    {"attribute": "amplitudes, components, parameter_defaults", "container": "group_by_spin_projection / group_by_topology / DynamicsSelector (dicts filled from the LIST reaction.transitions)",
+     "where": "helicity/decay.py, helicity/__init__.py", "fingerprint": [], "neutralised_by": "insertion-ordered dicts over a list: no set involved"},
+]
 MAX_PROCS = 12
 
 
@@ -65,12 +85,15 @@ class Tracked:
             f, v = op["field"], op["value"]
             if f == "stable":
                 self.cfg["stable"] = None if v is None else sorted(set(v))
-            elif f == "dyn":
-                if v[0] in info["particles"]:
+            elif f in ("dyn", "dyn_decay"):
+                # effective selection: decay index -> dynamics builder (assignment by name covers every
+                # decay of that parent and overrides earlier per-decay assignments)
+                idxs = [i for i, parent in enumerate(info["decays"]) if parent == v[0]] if f == "dyn" else [v[0]]
+                for i in idxs:
                     if v[1] == "create_non_dynamic":
-                        self.cfg["dyn"].pop(v[0], None)
+                        self.cfg["dyn"].pop(i, None)
                     else:
-                        self.cfg["dyn"][v[0]] = v[1]
+                        self.cfg["dyn"][i] = v[1]
             else:
                 self.cfg[f] = v
         elif op["op"] == "reg":
@@ -94,7 +117,7 @@ def ops_to_reach(target: dict, current: dict, b: int) -> list[dict] | None:
             ops.append({"op": "set", "b": b, "field": f, "value": target[f]})
     for p in sorted(set(current["dyn"]) | set(target["dyn"])):
         if current["dyn"].get(p) != target["dyn"].get(p):
-            ops.append({"op": "set", "b": b, "field": "dyn", "value": [p, target["dyn"].get(p, "create_non_dynamic")]})
+            ops.append({"op": "set", "b": b, "field": "dyn_decay", "value": [p, target["dyn"].get(p, "create_non_dynamic")]})
     for t in sorted(set(target["topos"]) - set(current["topos"])):
         ops.append({"op": "reg", "b": b, "topo": t})
     return ops
@@ -105,7 +128,9 @@ def ops_to_reach(target: dict, current: dict, b: int) -> list[dict] | None:
 
 def random_set_op(rng, b: int, info: dict) -> dict:
     finals = [i - 1 for i in info["final"]]
-    f = rng.choice(["align", "align", "stable", "stable", "scalar", "hel", "dyn", "naming"])
+    f = rng.choice(["align", "align", "stable", "stable", "scalar", "hel", "dyn", "dyn_decay", "naming"])
+    if f == "dyn_decay" and not info["decays"]:
+        f = "hel"
     if f == "align":
         v = rng.choice(["none", "axis", "dpd:1", "dpd:1", "dpd:2", "dpd:3"])
     elif f == "stable":
@@ -125,6 +150,8 @@ def random_set_op(rng, b: int, info: dict) -> dict:
     elif f == "dyn":
         names = [*info["particles"], "nonexistent(1234)"]
         v = [rng.choice(names), rng.choice(HIST_DYNAMICS)]
+    elif f == "dyn_decay":
+        v = [rng.randrange(len(info["decays"])), rng.choice(HIST_DYNAMICS)]
     else:
         v = rng.randrange(4)
     return {"op": "set", "b": b, "field": f, "value": v}
@@ -134,13 +161,18 @@ def gen_segment(rng, infos: dict, n_ops: int, first_builder: int, malformed: boo
     """One history segment: two builders sharing a reaction object (+ sometimes a third builder on
     another reaction).  Returns (ops, builder reaction names)."""
     def pick():
-        return rng.choice(PAIR_REACTIONS) if rng.random() < 0.8 else rng.choice(GAP_REACTIONS)
+        u = rng.random()
+        return rng.choice(PAIR_REACTIONS) if u < 0.72 else rng.choice(GAP_REACTIONS) if u < 0.9 else rng.choice(FOUR_BODY)
 
     r0 = pick()
     names = [r0, r0]
     if rng.random() < 0.5:
         names.append(pick())
     ops = [{"op": "new", "r": r} for r in names]
+    if rng.random() < 0.4:
+        # the second builder gets an EQUAL but not identical reaction object (qrules.io round trip)
+        ops[1]["fresh"] = True
+        stats["equal_not_identical_reaction"] = stats.get("equal_not_identical_reaction", 0) + 1
     tracked = [Tracked(r, infos[r]["own"]) for r in names]
     visited: list[tuple[str, dict]] = []
     for _ in range(n_ops):
@@ -177,7 +209,7 @@ def gen_segment(rng, infos: dict, n_ops: int, first_builder: int, malformed: boo
                 tracked[op["b"] - first_builder].apply(op, infos[names[op["b"] - first_builder]])
             if op["op"] == "formulate":
                 t = tracked[op["b"] - first_builder]
-                visited.append((t.rname, json.loads(json.dumps(t.cfg))))
+                visited.append((t.rname, {**json.loads(json.dumps(t.cfg)), "dyn": dict(t.cfg["dyn"])}))
             stats[op["op"]] = stats.get(op["op"], 0) + 1
             if op["op"] == "set":
                 stats["set:" + op["field"]] = stats.get("set:" + op["field"], 0) + 1
@@ -208,6 +240,20 @@ def scripted_segments(rng, infos: dict, first_builder: int, stats: dict):
             segments.append((ops, [r1, r2]))
             fb += 2
             stats["scripted_pairs"] = stats.get("scripted_pairs", 0) + 1
+    # a 4-body reaction under axis-angle alignment, two builders on equal-but-not-identical reaction
+    # objects, permuted topologies registered mid-history, dynamics by decay re-assigned after a formulate
+    for r in FOUR_BODY:
+        ops = [{"op": "new", "r": r}, {"op": "new", "r": r, "fresh": True},
+               {"op": "set", "b": fb, "field": "align", "value": "axis"},
+               {"op": "set", "b": fb, "field": "dyn_decay", "value": [0, HIST_DYNAMICS[1]]},
+               {"op": "formulate", "b": fb}, {"op": "formulate", "b": fb + 1},
+               {"op": "set", "b": fb, "field": "dyn_decay", "value": [0, HIST_DYNAMICS[0]]},
+               {"op": "set", "b": fb + 1, "field": "align", "value": "axis"},
+               {"op": "permutate", "b": fb + 1}, {"op": "formulate", "b": fb + 1},
+               {"op": "formulate", "b": fb}, {"op": "permutate", "b": fb}, {"op": "formulate", "b": fb}]
+        segments.append((ops, [r, r]))
+        fb += 2
+        stats["scripted_four_body"] = stats.get("scripted_four_body", 0) + 1
     # reactions with zero-defined ("missing") amplitudes: always formulated, so that they take part
     # in the fresh-process / hash-seed comparison
     for r in GAP_REACTIONS:
@@ -275,10 +321,13 @@ def lean_lines_for(ops: list[dict], results: list[dict], builder_names: dict[int
             elif f == "stable":
                 lines.append(f"set {b} stable " + ("-" if v is None else (csv(i + 1 for i in v) if v else "-empty")))
             elif f == "dyn":
-                if v[0] in info["particles"]:
-                    lines.append(f"set {b} dyn {info['particles'].index(v[0])} {HIST_DYNAMICS.index(v[1])}")
-                else:
+                idxs = [i for i, parent in enumerate(info["decays"]) if parent == v[0]]
+                for i in idxs:
+                    lines.append(f"set {b} dyn {i} {HIST_DYNAMICS.index(v[1])}")
+                if not idxs:
                     lines.append(f"bad {b} 0")
+            elif f == "dyn_decay":
+                lines.append(f"set {b} dyn {v[0]} {HIST_DYNAMICS.index(v[1])}")
             elif f == "naming":
                 lines.append(f"set {b} naming {v}")
         elif k == "bad":
@@ -673,7 +722,7 @@ class C06Property:
         ref_keys = []
         for (rname, cfgkey) in distinct:
             cfg = json.loads(cfgkey)
-            cfg["dyn"] = dict(cfg["dyn"])
+            cfg["dyn"] = {int(k): v for k, v in cfg["dyn"]}
             base = Tracked(rname, infos[rname]["own"]).cfg
             ops = [{"op": "new", "r": rname}, *ops_to_reach(cfg, base, 0), {"op": "formulate", "b": 0}]
             ref_hist.append({"ops": ops, "reset_after": True, "share": False})
@@ -681,6 +730,13 @@ class C06Property:
         seeds = [str(rng.randrange(1, 2**31)) if s == "prng" else s for s in size["hashseeds"]]
         cover, scan_info = S.covering_seeds([str(i) for i in range(size["scan_seeds"])], REACTIONS, size["cover_seeds"])
         chk.info("hash_seed_scan", scan_info)
+        src = []
+        for it in ITERATION_SOURCES:
+            keys = [k for k in scan_info["orders_observed_in_scan"] if any(
+                k == f or (f.endswith("*") and k.startswith(f[:-1])) for f in it["fingerprint"])]
+            src.append({**it, "distinct_orders_observed_in_scan": {k: scan_info["orders_observed_in_scan"][k] for k in keys},
+                        "distinct_orders_among_picked_seeds": {k: scan_info["orders_covered_by_picked_seeds"][k] for k in keys}})
+        chk.info("iteration_order_sources", src)
         gap_orders = {r: scan_info["orders_covered_by_picked_seeds"].get("indexed-atoms:" + r, 0) for r in GAP_REACTIONS}
         chk.info("atom_set_orders_covered_for_gap_reactions", gap_orders)
         if any(v < 2 for v in gap_orders.values()):
@@ -787,6 +843,8 @@ class C06Property:
         try:
             self.sort_and_merge_tie(chk, common.rng_for(PROP_ID, seed, "sort"), size, sort_cases, variant["tiebreak"])
             self.missing_tie(chk, common.rng_for(PROP_ID, seed, "missing"), missing_cases, variant["missing_sorted"])
+            if variant["missing_sorted"]:
+                self.transition_order_observation(chk)
         except common.LeanRunError as e:
             chk.broken_correspondence("natural-sort driver", str(e)[:800])
         except Exception as e:  # noqa: BLE001
@@ -876,8 +934,60 @@ class C06Property:
                                           {"reaction": c["reaction"], "real": c["real_output"], "lean": lean_order})
             else:
                 n_ok += 1
-        chk.coverage["missing_amplitude_cases"]["compared_with_lean"] = len(plan)
-        chk.coverage["missing_amplitude_cases"]["agree"] = n_ok
+        mc = chk.coverage.setdefault("missing_amplitude_cases", {})
+        mc["compared_with_lean"] = mc.get("compared_with_lean", 0) + len(plan)
+        mc["agree"] = mc.get("agree", 0) + n_ok
+
+    def transition_order_observation(self, chk: common.Check):
+        """Observation outside C06's statement: does the model depend on the ORDER of
+        reaction.transitions?  (a) through the public constructor (qrules sorts), (b) with the order
+        forced; in both cases the Lean model must reproduce the key order of model.amplitudes from the
+        registration order (C06_amplitudes_order_only_registration / _depend_on_registration_order)."""
+        import ampform
+        from qrules.transition import ReactionInfo
+
+        from tools.corr import C06_real as R
+
+        obs = {}
+        cases = []
+        for rname in ("chic0_omega_phi", "lc_pkpi"):
+            r = R.fresh_reaction(rname)
+            variants = {"as stored": r}
+            try:
+                variants["public constructor, reversed list"] = ReactionInfo(transitions=list(reversed(r.transitions)), formalism=r.formalism)
+            except Exception as e:  # noqa: BLE001
+                obs[rname + ": public constructor"] = "error " + type(e).__name__
+            forced = R.fresh_reaction(rname)
+            try:
+                object.__setattr__(forced, "transitions", type(r.transitions)(reversed(r.transitions)))
+                variants["order forced (bypassing ReactionInfo)"] = forced
+            except Exception as e:  # noqa: BLE001
+                obs[rname + ": forced"] = "error " + type(e).__name__
+            digests = {}
+            for label, reaction in variants.items():
+                b = ampform.get_builder(reaction)
+                model = b.formulate()
+                digests[label] = R.digest_model(model, reaction)
+                case = {"reaction": f"{rname} ({label})"}
+                self.collect_missing_case(b, model, case["reaction"], cases)
+                chk.count(("transition-order", rname, label))
+            base = digests["as stored"]
+            for label, d in digests.items():
+                if label != "as stored":
+                    obs[f"{rname}: {label}"] = {
+                        "same_transition_order_as_stored": d["reaction_info"] == base["reaction_info"],
+                        "attributes_that_differ": [k for k in ("intensity", "amplitudes", "parameter_defaults", "kinematic_variables", "components") if d[k] != base[k]],
+                        "amplitudes_equal_as_unordered_mapping": d["amp_unordered"] == base["amp_unordered"]}
+        forced_diff = any(v.get("attributes_that_differ") for k, v in obs.items() if isinstance(v, dict) and "forced" in k)
+        public_diff = any(v.get("attributes_that_differ") for k, v in obs.items() if isinstance(v, dict) and "public" in k)
+        chk.info("reaction_transitions_order_observation", {
+            "model_depends_on_order_given_to_public_constructor": public_diff,
+            "model_depends_on_forced_transition_order": forced_diff,
+            "note": "observation only (outside C06's statement: a reaction with another transition order is another ReactionInfo value)",
+            "details": obs})
+        before = len(chk.broken)
+        self.missing_tie(chk, common.rng_for(PROP_ID, chk.seed, "missing-order"), cases, 1)
+        chk.coverage["reaction_transitions_order_observation"]["lean_reproduces_amplitude_order_for_every_order"] = len(chk.broken) == before
 
     def make_replay(self, v: dict, all_ops: list[dict], segments, size: dict, chk) -> dict:
         """Replay = histories (each run in a fresh process with its hash seed) + the two formulate
@@ -1024,7 +1134,7 @@ MANIFEST = {
                  "fresh-process / PYTHONHASHSEED sweep as independent oracle",
     "design_ref": "DESIGN.md §3 C06",
     "text": (
-        "Proof (14 theorems, all unbounded in the history; none partial). Model/C06Purity.lean is a state machine over a process-global heap: "
+        "Proof (16 theorems, all unbounded in the history; none partial). Model/C06Purity.lean is a state machine over a process-global heap: "
         "every functools.cache / lru_cache of the package (10, listed as CacheId; found by grep and re-found by introspection on every run) holds its "
         "result by reference, builders carry ingredients, their own and the user-intended configuration, and the adapter's topology SET with an explicit "
         "iteration order; formulate() is modelled line by line where it touches shared state (reset, registration of combinatorics topologies, stable / "
@@ -1041,6 +1151,10 @@ MANIFEST = {
         "C06_order_needs_tie_break shows the statement is false for the plain natural sort (m_1 / m_01). C06_missing_order: defining the missing amplitudes "
         "in sorted(str) order makes the key order of model.amplitudes independent of the atoms-set iteration order for ANY converter order, ties included; "
         "C06_missing_order_needs_inner_sort: false without the inner sort when two keys tie under the converter's key (A[0, -1] / A[0, 1]). "
+        "C06_amplitudes_order_only_registration / C06_amplitudes_depend_on_registration_order: with the modelled converter the key order of "
+        "model.amplitudes is a function of the registration order (reaction.transitions, configuration) and of the atoms as a set, and it does depend on "
+        "the registration order (ties) — an observation outside C06's statement, reproduced on the real code each run (qrules' ReactionInfo sorts its "
+        "transitions, so only a forced order shows it). "
         "Every unsound switch has a kernel-checked, "
         "replayable witness: C06_witness_alias(+_not_pure) (memoised DPD dict aliased, before b218b43), C06_witness_noreset, C06_witness_shared, "
         "C06_witness_ties (before 043d8fb), C06_witness_missing (zero definitions in set order). Tie on every run: the variant is inferred by replaying the witness histories on the real code in a fresh "
@@ -1054,8 +1168,12 @@ MANIFEST = {
         "containers, incl. the atoms set of the two reactions with zero-defined amplitudes, for which >= 2 distinct set orders among the picked seeds are "
         "recorded in the evidence; thorough adds unset/0/1/4242, own processes, schedules of two interleaved builders) must be equal. The order of "
         "model.amplitudes is also recomputed by the Lean model (define missing + stable natural sort) from the real registered keys and atoms. "
-        "Bounded: the histories use four 3-body reactions (DPD, axis-angle, identical particles, half-integer spins) and two 2-body reactions with "
-        "missing helicity combinations (chi_c0 -> omega phi, eta_c -> Lambda Lambda~); 4-body topologies only in the merge comparison."
+        "Histories also use builders on equal-but-not-identical reaction objects (qrules.io round trip), dynamics assigned by name and by single decay and "
+        "re-assigned after a formulate, naming flags, permutate_registered_topologies mid-history; digests cover srepr, the module-qualified class and "
+        "the non-SymPy attributes of every node, container / key / value types and reaction_info; every hash-ordered container feeding the six "
+        "attributes is listed in the evidence (iteration_order_sources) with the number of distinct orders observed; every formulate has a wall-clock "
+        "cap. Bounded: the histories use four 3-body reactions (DPD, axis-angle, identical particles, half-integer spins), two 2-body reactions with "
+        "missing helicity combinations (chi_c0 -> omega phi, eta_c -> Lambda Lambda~) and one 4-body reaction (2 topologies, 12 permuted ones, axis-angle)."
     ),
     "level_note": (
         "Trusted: Lean 4.33 kernel (axioms propext, Classical.choice, Quot.sound; thorough re-checks with leanchecker); the hand-written model "
